@@ -193,6 +193,9 @@ def run_case(rec: Recorder, case: dict[str, typing.Any]) -> None:
                 if not held and len(items) != N:
                     rec.fail(case, "slot-count-wrong-at-quiescence", dict(obs, missing=N - len(items)), f"all responses disposed but the pool offers {len(items)} of {N} slots")
                     return False
+                if cfg["block"] and len(items) + n_held > N:
+                    rec.fail(case, "more-slots-than-maxsize", dict(obs, leased=n_held, phantom=len(items) + n_held - N), f"{len(items)} queued + {n_held} leased > maxsize {N} on a block=True pool")
+                    return False
                 if cfg["block"] and held and len(items) + len(held) < N:
                     rec.fail(case, "slot-lost-while-leased", dict(obs, missing=N - len(items) - len(held)), f"{len(items)} queued + {len(held)} leased < {N}")
                     return False
@@ -229,6 +232,17 @@ def run_case(rec: Recorder, case: dict[str, typing.Any]) -> None:
                 exc: BaseException | None = None
                 nbase = len(injected_bases)
                 try:
+                    if req.get("bad_arg"):
+                        # a call that is rejected for its arguments before anything is checked out must leave the pool alone
+                        rec.mon("rejected_call")
+                        try:
+                            opener.urlopen(req["method"], url, **{"timeout": {"timeout": 0}, "pool_timeout": {"pool_timeout": -1}, "timeout-bool": {"timeout": True}}[req["bad_arg"]])
+                            rec.count("bad_argument_accepted")
+                        except (ValueError, HTTPError):
+                            pass
+                        if not quiescent_checks(f"after rejected call {ri}"):
+                            return
+                        continue
                     resp = opener.urlopen(req["method"], url, body=(b"data" if req["method"] == "POST" else None), preload_content=cfg["preload"], release_conn=cfg["release_conn"], pool_timeout=0.001, **({"retries": build_retries(req["retries"])} if "retries" in req else {}))
                 except BaseException as e:  # noqa: BLE001
                     exc = e
@@ -396,6 +410,8 @@ def random_request(rng: typing.Any, first_fault_only: bool = False) -> dict[str,
         else:
             attempts.append(dict(rng.choice(RESP)))
     req = {"method": rng.choice(["GET", "GET", "POST"]), "attempts": attempts, "disposal": rng.choice(DISPOSALS), "dispose_when": rng.choice(["now", "now", "late"])}
+    if rng.random() < 0.06:
+        return {"method": "GET", "attempts": [], "disposal": "read", "dispose_when": "now", "bad_arg": rng.choice(["timeout", "pool_timeout", "timeout-bool"])}
     if rng.random() < 0.2:
         req["retries"] = rng.choice(RETRIES)
     return req
@@ -448,6 +464,21 @@ def run_shard(ctx: Ctx, rec: Recorder) -> None:
                                 rec.case(["deep", cfg, oi, second])
                                 rec.mon("deep_dial_case")
                                 run_case(rec, case)
+    # (i-c) a call rejected for its arguments while another response is still leased
+    for kind in ("direct", "forward"):
+        for maxsize in (1, 2):
+            for block in (True, False):
+                for bad in ("timeout", "pool_timeout", "timeout-bool"):
+                    for nleased in (0, 1, 2):
+                        idx += 1
+                        if not ctx.mine(idx):
+                            continue
+                        cfg = {"kind": kind, "maxsize": maxsize, "block": block, "retries": False, "preload": False, "release_conn": None}
+                        reqs = [{"method": "GET", "attempts": [{"k": "resp", "status": 200, "body": "leased-body-0123456789"}], "disposal": "read", "dispose_when": "late"} for _ in range(min(nleased, maxsize))]
+                        reqs += [{"method": "GET", "attempts": [], "disposal": "read", "dispose_when": "now", "bad_arg": bad}, {"method": "GET", "attempts": [], "disposal": "read", "dispose_when": "now"}] if nleased < maxsize or not block else [{"method": "GET", "attempts": [], "disposal": "read", "dispose_when": "now", "bad_arg": bad}]
+                        case = {"cfg": cfg, "requests": reqs, "shape": "rejected-call", "lease_probe": False}
+                        rec.case(["rejected-call", cfg, bad, nleased])
+                        run_case(rec, case)
     rec.exhaustive_parts.append(f"single-outcome histories: {len(ALL_OUTCOMES)} outcomes x 3 pool kinds x maxsize 1/2 x block x 4 retry policies x preload x release_conn x disposals, strided 1/{stride}")
     # (ii) random histories of 1-3 requests with 1-3 attempts each, overlapping leases
     n = ctx.pick(6000, 250000)
